@@ -19,6 +19,7 @@ from .env import VERIF
 
 
 def _digests(prop, runs, workers, seed):
+    runner.KEEP_DIGESTS = True
     code, total = runner.run_batch(prop, 'quick', seed, nruns=runs,
                                    budget_s=3600, workers=workers,
                                    write_evidence=False, quiet=True)
@@ -32,6 +33,7 @@ def _fresh(prop, runs, workers, seed, extra_env):
     cmd = [sys.executable, os.path.join(VERIF, 'check'), 'selftest-digest',
            '--runs', str(runs), '--workers', str(workers), '--seed', str(seed)]
     env['ODLSIM_DIGEST_PROP'] = prop
+    env['ODLSIM_KEEP_DIGESTS'] = '1'
     p = subprocess.run(cmd, env=env, stdout=subprocess.PIPE,
                        stderr=subprocess.PIPE, timeout=3600)
     for line in p.stdout.decode().splitlines():
